@@ -13,6 +13,7 @@ REPL = {
     'pair->FO': ('pair', ['F', 'O'], [(1.35, 0.2, 0), (-0.5, 1.1, 0.3)]),
     'pair->F-off-anchor': ('pair', ['F'], [(1.35, 0.2, 0)]),          # a one-atom replacement that does NOT sit on the first search atom
     'chiral4->S-off-anchor': ('chiral4', ['S'], [(0.7, 0.8, 0.9)]),
+    'pair->CH-moved-0.05A': ('pair', ['C', 'H'], [(0, 0, 0), (1.14, 0, 0)]),      # H 0.05 A further out: not a common atom, re-inserted at the new distance
     'pair->pair': ('pair', ['C', 'H'], [(0, 0, 0), (1.09, 0, 0)]),
     'chiral4->CHSP': ('chiral4', ['C', 'H', 'S', 'P'], [(0, 0, 0), (1.0, 0, 0), (0.3, 1.5, 0.2), (-0.4, -0.2, 1.8)]),
     'chiral4->chiral4': ('chiral4', ['C', 'H', 'N', 'O'], [(0, 0, 0), (1.0, 0, 0), (0, 1.2, 0), (0, 0, 1.4)]),
@@ -112,6 +113,11 @@ def run_e2e(ctx, p):
         jt = [ctx.real(f"jt{c}", -20, 20) for c in range(3)]
     search = make_pattern(ctx, None, elements=sel, positions=spos, translate=jt)
     replace = make_pattern(ctx, None, elements=rel, positions=rpos, translate=jt)
+    if p.get('pattern_cells'):
+        # patterns read from files that carry their own box (a CIF with _cell_* tags, a LAMMPS data file): the patterns' cells mean nothing
+        # for the structure they are inserted into
+        replace.cell = np.array([[9.0, 0, 0], [0, 7.0, 0], [0, 0, 8.0]])
+        search.cell = np.array([[30.0, 0, 0], [0, 30.0, 0], [0, 0, 30.0]])
     if p.get('search_type_offset'):
         # the search pattern was cut out of a larger object: it carries that object's type table (its own types come after two foreign rows)
         search.atom_type_elements = ['He', 'Ne'] + list(search.atom_type_elements)
